@@ -400,7 +400,7 @@ class Walker:
         if a.vararg:
             st.env[a.vararg.arg] = fa["*" + a.vararg.arg] if fa and ("*" + a.vararg.arg) in fa else P("*" + a.vararg.arg)
         if a.kwarg:
-            st.env[a.kwarg.arg] = P("**" + a.kwarg.arg)
+            st.env[a.kwarg.arg] = fa["**" + a.kwarg.arg] if fa and ("**" + a.kwarg.arg) in fa else P("**" + a.kwarg.arg)
         if self.fi.parent is not None:
             st.env["$closure"] = C(True)
             # free variables are implicit parameters, bound by the call (see calls.apply_repo)
@@ -1554,6 +1554,12 @@ class Walker:
 
     def e_Attribute(self, e, st):
         chain = dotted_chain(e)
+        if chain and chain[0] == "super()" and len(chain) == 2 and self.fi.cls:
+            # super().name taken as a value (passed to a helper): the next implementation in the MRO
+            cur_cls = self.fi.mod.short + "." + self.fi.cls
+            m = self.prog.find_method(self.clsbind or cur_cls, chain[1], after=cur_cls)
+            if m is not None and m[0] != "repo":
+                return [(st, "val", G("ext:" + m[1]))]
         if chain and chain[0] != "super()" and self._is_module_level(chain[0], st):
             r, rest = self.prog.resolve_dotted(self.mod, chain)
             if r[0] == "unknown":
